@@ -989,11 +989,12 @@ fn main() {
                     writeln!(out, "pair {x} {y}\t{}", run_pair(&a[x], &b[y])).unwrap();
                 }
             }
-            // template operators: all pairs in the thorough tier, a fixed stride plus every pair of
-            // "interesting" neighbours in quick
+            // template operators: all pairs in the thorough tier
             for x in 0..z.len() {
                 for y in 0..z.len() {
-                    if thorough || (x * 31 + y * 17) % 4 == 0 || x == y {
+                    // quick: a fixed stride, plus every pair that is `==` (where `in` / lookups must agree)
+                    let is_eq = guarded(|| a[x] == b[y]).unwrap_or(false);
+                    if thorough || (x * 31 + y * 17) % 4 == 0 || x == y || is_eq {
                         writeln!(out, "tpl {x} {y}\t{}", run_tpl(&env, &a[x], &b[y])).unwrap();
                     }
                 }
